@@ -193,27 +193,65 @@ impl HonestPeer {
         c: &SimChain,
         req: &packed::GetBlocksProof,
     ) -> packed::LightClientMessage {
+        self.blocks_proof_inner(c, req, false).0
+    }
+
+    /// A lying answer: every requested block of the world that is NOT on the server's chain (or not below the last
+    /// header) is returned as found as well; the MMR proof covers the genuinely found headers only.  None when the
+    /// request names no such block.
+    pub fn blocks_proof_lying(
+        &self,
+        c: &SimChain,
+        req: &packed::GetBlocksProof,
+    ) -> Option<packed::LightClientMessage> {
+        let (m, lied) = self.blocks_proof_inner(c, req, true);
+        if lied { Some(m) } else { None }
+    }
+
+    fn blocks_proof_inner(
+        &self,
+        c: &SimChain,
+        req: &packed::GetBlocksProof,
+        lie: bool,
+    ) -> (packed::LightClientMessage, bool) {
+        let (m, lied) = self.blocks_proof_inner2(c, req, lie);
+        (m, lied)
+    }
+
+    fn blocks_proof_inner2(
+        &self,
+        c: &SimChain,
+        req: &packed::GetBlocksProof,
+        lie: bool,
+    ) -> (packed::LightClientMessage, bool) {
+        let mut lied = false;
         let last_id = match self.on_chain(c, &req.last_hash()) {
             Some(id) => id,
             None => {
                 let content = packed::SendBlocksProof::new_builder()
                     .last_header(c.verifiable(self.tip))
                     .build();
-                return packed::LightClientMessage::new_builder().set(content).build();
+                return (packed::LightClientMessage::new_builder().set(content).build(), false);
             }
         };
         let last_num = c.blocks[last_id].num;
         let mut found = Vec::new();
+        let mut proved = Vec::new();
         let mut missing = Vec::new();
         for h in req.block_hashes().into_iter() {
             match c.id_of(&h) {
                 Some(id) if c.is_ancestor(id, last_id) && c.blocks[id].num < last_num => {
-                    found.push(id)
+                    found.push(id);
+                    proved.push(id);
+                }
+                Some(id) if lie && id != 0 => {
+                    found.push(id);
+                    lied = true;
                 }
                 _ => missing.push(h),
             }
         }
-        let nums: Vec<u64> = found.iter().map(|id| c.blocks[*id].num).collect();
+        let nums: Vec<u64> = proved.iter().map(|id| c.blocks[*id].num).collect();
         let proof = c.gen_proof(last_id, last_num, &nums);
         let headers: Vec<packed::Header> =
             found.iter().map(|id| c.blocks[*id].header.data()).collect();
@@ -250,7 +288,7 @@ impl HonestPeer {
                 .missing_block_hashes(missing.pack())
                 .build()
         };
-        packed::LightClientMessage::new_builder().set(content).build()
+        (packed::LightClientMessage::new_builder().set(content).build(), lied)
     }
 
     pub fn txs_proof(
